@@ -36,7 +36,7 @@ package net
 //@ func New
 //@   prop C05
 //@   modifies nothing
-//@   ensures @wrapper result != nil
+//@   ensures @wrapper result != nil || typeis(rawConn, "*Conn")
 
 //@ func (*Conn).SetReadTimeout
 //@   prop C05
